@@ -1,5 +1,6 @@
 import LZ4V.Properties.C11
 import LZ4V.Proofs.FastSProof
+import LZ4V.Proofs.FastXProof
 /-!
 # C11 — streaming compression round-trips over every history: the contiguous `LZ4_compress_fast_continue` stream, as a function
 
@@ -39,5 +40,24 @@ example :
     (session h {} [(a, 1, 100), (a, 1, 100)]).length = 2 ∧
     ((session h {} [(a, 1, 100), (a, 1, 100)])[1]?).bind id = some [0x0b, 20, 0, 0x50, 16, 17, 18, 19, 20] := by
   decide +kernel
+
+/-! ## any placement: ring buffers, double buffers, `LZ4_saveDict` (Model/FastX.lean) -/
+
+open LZ4V.Model.FastX in
+/-- **sources placed anywhere**: for every life of a stream — blocks right after the previous one, somewhere else (double buffer, ring buffer), over
+    the beginning of the dictionary space (a ring that wraps), `LZ4_saveDict` of any size to any place, dictionary loads, fast resets — every block
+    returned decodes to its source against the history of the stream since the last reset / load, and against any tail of it of at least 65535
+    bytes (what a decoder with `LZ4_setStreamDecode`, a ring of `LZ4_decoderRingBufferSize` bytes or an explicit dictionary holds) -/
+theorem placed_fast_stream_round_trips (hashOf : Array UInt8 → Bool → Nat → Nat) (ops : List Op) (k addr : Nat) (data : Array UInt8) (acc : Int) (cap : Nat)
+    (blk : List UInt8) (hop : ops[k]? = some (.compress addr data acc cap)) (h : (run hashOf {} ops)[k]? = some (.block (some blk)))
+    (pre w : List UInt8) (hw : histAt [] ops k = pre ++ w) (hlen : pre = [] ∨ 65535 ≤ w.length) :
+    decode w blk = some data.toList :=
+  (run_parsed hashOf ops {} [] JX_init (IsTail.refl _) k addr data acc cap blk hop h pre w hw hlen).decode
+
+open LZ4V.Model.FastX in
+/-- the invariant behind it is kept by every operation from every state -/
+theorem placed_stream_invariant (hashOf : Array UInt8 → Bool → Nat → Nat) (S : XState) (H : List UInt8) (op : Op) (hJ : JX S) (hT : IsTail S.dict.toList H) :
+    JX (step hashOf S op).1 ∧ ((step hashOf S op).2 ≠ .block none → IsTail (step hashOf S op).1.dict.toList (hist H op)) :=
+  step_spec hashOf S H op hJ hT
 
 end LZ4V.C11
